@@ -254,6 +254,10 @@ impl<T: SimpleDataType, A> SimpleGarnishData<T, A> {
     pub open spec fn table_names_cells(&self) -> bool {
         forall|k: u64| self.cache@.contains_key(k) ==> #[trigger] self.cache@[k] < self.cells().len()
     }
+    /// the three constants a data object is created with (SimpleDataList::default): unit, false, true at addresses 0, 1, 2
+    pub open spec fn has_constants(&self) -> bool {
+        self.cells().len() >= 3 && self.cells()[0] is Unit && self.cells()[1] is False && self.cells()[2] is True
+    }
     /// everything but the data table and the intern table
     pub open spec fn rest_unchanged(&self, o: &Self) -> bool {
         self.register == o.register && self.values == o.values && self.instructions == o.instructions
